@@ -783,6 +783,20 @@ class UniformTime(np.ndarray, TimeInterface):
             You can either use += on the full array, OR
             create a new TimeArray from this UniformTime""")
 
+    def _set_sampling(self, t0, sampling_interval):
+        """Make t0, sampling_interval, sampling_rate and duration describe
+        len(self) samples starting at t0 (both given in the base unit)"""
+        def as_time(x):
+            return TimeArray(np.int64(x), time_unit=self.time_unit, copy=False)
+        self.t0 = as_time(t0)
+        self.sampling_interval = as_time(sampling_interval)
+        self.duration = as_time(len(self) * int(sampling_interval))
+        if int(self.sampling_interval) != 0:
+            self.sampling_rate = Frequency(
+                1.0 / (float(self.sampling_interval) /
+                       time_unit_conversion[self.time_unit]),
+                time_unit=self.time_unit)
+
     def _convert_and_check_uniformity(self, val):
         """Returns the operand in the base unit and the change it makes to
         the sampling interval; neither the operand nor self are changed"""
@@ -808,25 +822,20 @@ class UniformTime(np.ndarray, TimeInterface):
             d_interval = dv[0]
         return val, d_interval
 
-    def _change_interval(self, d_interval):
-        if d_interval != 0:
-            self.sampling_interval += d_interval
-            self.sampling_rate = Frequency(1.0 / (float(self.sampling_interval) /
-                                        time_unit_conversion[self.time_unit]),
-                                        time_unit=self.time_unit)
-
     def __iadd__(self, val):
         val, d_interval = self._convert_and_check_uniformity(val)
         # numpy refuses operands of the wrong shape or type here, before any
         # attribute has been touched:
         np.ndarray.__iadd__(self, val)
-        self._change_interval(d_interval)
+        self._set_sampling(int(self.t0) + int(np.asarray(val).flat[0]),
+                           int(self.sampling_interval) + int(d_interval))
         return self
 
     def __isub__(self, val):
         val, d_interval = self._convert_and_check_uniformity(val)
         np.ndarray.__isub__(self, val)
-        self._change_interval(-d_interval)
+        self._set_sampling(int(self.t0) - int(np.asarray(val).flat[0]),
+                           int(self.sampling_interval) - int(d_interval))
         return self
 
     def __imul__(self, val):
